@@ -26,11 +26,11 @@ HMax(a, b) == IF a >= b THEN a ELSE b
 
 Width(c) == IF c < 128 THEN 1 ELSE IF c < 2048 THEN 2 ELSE IF c < 65536 THEN 3 ELSE 4
 
-RECURSIVE BytesOf(_)
-BytesOf(s) == IF s = <<>> THEN 0 ELSE Width(Head(s)) + BytesOf(Tail(s))
-
 (* byte offset of the boundary after the first i characters *)
-Off(t, i) == BytesOf(SubSeq(t, 1, i))
+RECURSIVE Off(_, _)
+Off(t, i) == IF i = 0 THEN 0 ELSE Width(t[i]) + Off(t, i - 1)
+
+BytesOf(s) == Off(s, Len(s))
 Boundaries(t) == {Off(t, i) : i \in 0..Len(t)}
 CharsBefore(t, b) == CHOOSE i \in 0..Len(t) : Off(t, i) = b        \* b a boundary
 
